@@ -65,6 +65,10 @@ func (s *source) rec(pid peer.ID, v int) *model.ProviderInfo {
 	return &model.ProviderInfo{
 		AddrInfo:              peer.AddrInfo{ID: pid, Addrs: []multiaddr.Multiaddr{a}},
 		LastAdvertisementTime: tstamp(v),
+		// the ingest status differs from one answer of the source to the next,
+		// also for a provider whose advertisement time stays the same
+		Lag:       s.rounds,
+		LastError: fmt.Sprintf("status-as-of-round-%d", s.rounds),
 		ExtendedProviders: &model.ExtendedProviders{
 			Providers: []peer.AddrInfo{{ID: pid, Addrs: []multiaddr.Multiaddr{a}}, {ID: x}, {ID: y, Addrs: []multiaddr.Multiaddr{a}}},
 			Metadatas: [][]byte{nil, []byte("x-md"), nil},
@@ -144,9 +148,14 @@ func readerThread(e *sched.Exec, w *world, name string) sched.Thread {
 		pi, err := w.pc.Get(ctx, pP)
 		e.Log("%s Get P=%d err=%v", name, verOf(pi), err)
 		lv := 0
+		var held []*model.ProviderInfo
+		var heldAs []string
 		for _, x := range w.pc.List() {
 			if x != nil && x.AddrInfo.ID == pP {
 				lv = verOf(x)
+			}
+			if x != nil {
+				held, heldAs = append(held, x), append(heldAs, fmt.Sprint(*x))
 			}
 		}
 		e.Log("%s List P=%d", name, lv)
@@ -154,6 +163,13 @@ func readerThread(e *sched.Exec, w *world, name string) sched.Thread {
 		e.Log("%s GetResults n=%d err=%v", name, len(res), err)
 		pi, err = w.pc.Get(ctx, pP)
 		e.Log("%s Get P=%d err=%v", name, verOf(pi), err)
+		// the records a reader was handed are snapshots: whatever writers do
+		// afterwards, a record it still holds reads as it did when it got it
+		for i, x := range held {
+			if now := fmt.Sprint(*x); now != heldAs[i] {
+				e.Log("%s held-record-changed: was %s, now %s", name, heldAs[i], now)
+			}
+		}
 	}}
 }
 
@@ -191,6 +207,9 @@ func checkReaders(e *sched.Exec, name string, threads []string, versions map[int
 	}
 	last := map[string]int{}
 	for _, l := range e.Obs() {
+		if strings.Contains(l, " held-record-changed: ") {
+			out = append(out, sched.Finding{Sig: name + ":record-handed-to-a-reader-changed-afterwards", Msg: l})
+		}
 		if strings.Contains(l, " called-by-reader ") {
 			out = append(out, sched.Finding{Sig: name + ":read-of-cached-provider-calls-the-source-itself", Msg: l})
 		}
@@ -507,7 +526,7 @@ func autoRefreshDueReaders() *sched.Scenario {
 
 func TestCheck(t *testing.T) {
 	r := vp.New("C07", "model_checking",
-		"scenarios on the real ProviderCache built with the instrumentation overlay, with a fake source whose Fetch/FetchAll are scheduling points (a writer can be parked inside a source call while it holds the write lock): Q1 one and two readers (Get, List, GetResults, Get of a provider cached by preload) vs a Refresh that moves that provider from version 1 to 2 and adds another, without and with filler providers so that the refresh rebuilds the main map; Q2 a reader vs a lookup of an uncached provider (miss-fetch); Q4 a refresh, a miss-fetch and a reader together (two writers publishing one after the other), with a final read once everything is at rest; Q3 two lookups after the refresh interval elapsed (virtual time); Q5 the same moment with a slow source and two readers whose first operation is a listing / a result expansion. Q6 a provider that was looked up while unknown (remembered absent, merged into the main map) appears and is published by a refresh while a reader looks it up and lists (lookup and listing must agree). In every scenario a source call made on a reader's own goroutine is a violation (a read of a cached provider never does a writer's work). All interleavings at the scheduling points (atomic load/store/CAS of the snapshot pointer and refresh flag, write-lock channel operations, spawns, source calls, observations) up to the preemption bound. At every quiescence a reader released last must be parked at its next point or finished (otherwise it waits for a writer). states = distinct decision states; transitions = scheduling steps; traces = executions of the real cache.",
+		"scenarios on the real ProviderCache built with the instrumentation overlay, with a fake source whose Fetch/FetchAll are scheduling points (a writer can be parked inside a source call while it holds the write lock): Q1 one and two readers (Get, List, GetResults, Get of a provider cached by preload) vs a Refresh that moves that provider from version 1 to 2 and adds another, without and with filler providers so that the refresh rebuilds the main map; Q2 a reader vs a lookup of an uncached provider (miss-fetch); Q4 a refresh, a miss-fetch and a reader together (two writers publishing one after the other), with a final read once everything is at rest; Q3 two lookups after the refresh interval elapsed (virtual time); Q5 the same moment with a slow source and two readers whose first operation is a listing / a result expansion. Q6 a provider that was looked up while unknown (remembered absent, merged into the main map) appears and is published by a refresh while a reader looks it up and lists (lookup and listing must agree). In every scenario the records a reader was handed by a listing must read the same at the end of its run (the source's answers differ in their ingest-status fields from round to round), and a source call made on a reader's own goroutine is a violation (a read of a cached provider never does a writer's work). All interleavings at the scheduling points (atomic load/store/CAS of the snapshot pointer and refresh flag, write-lock channel operations, spawns, source calls, observations) up to the preemption bound. At every quiescence a reader released last must be parked at its next point or finished (otherwise it waits for a writer). states = distinct decision states; transitions = scheduling steps; traces = executions of the real cache.",
 		"data races are NOT decided here: a cooperative scheduler's hand-offs are happens-before edges; they are the business of the separate free-running -race pass of the same operations (package c07race, run by the driver, sampled and declared non-exhaustive)",
 		"at most 2 readers; sequential consistency of the atomics is assumed",
 	)
